@@ -12,7 +12,13 @@ number `seq` (`none` = bad_record_mac).
 The transport is a list of chunks: one `Read` of the underlying connection returns one chunk
 (`bytes.Buffer.ReadFrom` always offers at least `bytes.MinRead` = 512 bytes of room, so a
 real read is never cut short when chunks are at most 512 bytes; every other behaviour is
-the same as some other chunking).  The end of the list is end-of-stream.
+the same as some other chunking).  The end of the list is end-of-stream, which a transport may
+report in two ways (io.Reader allows both): by a separate `Read` that returns `(0, io.EOF)`, or
+TOGETHER with the last chunk (`n > 0, err == io.EOF`) — `Raw.eofWithLast`.  `atLeastReader.Read`
+is modelled statement by statement (`atLeast`): the bytes that arrive with the end count.
+A transport whose read deadline has passed (`Raw.expired`) answers every `Read` with a timeout
+(net.Conn: the deadline is checked before any byte is handed over), which is a temporary
+`net.Error`: `readRecordOrCCS` returns it without latching it in `c.in.err`.
 
 Core Lean only (linked into `oracle_c06`).
 -/
@@ -34,11 +40,17 @@ structure Params where
   alertCloseNotify : Nat
   levelWarning : Nat
   levelError : Nat
+  /-- `atLeastReader.Read` turns the transport's `io.EOF` into `io.ErrUnexpectedEOF` only when
+  bytes are still missing (`if r.N > 0 && err == io.EOF`); `false` = it does so for every
+  `io.EOF` (regenerated fact `rxAtLeastShortOnlyWhenShort`) -/
+  eofShortOnlyWhenShort : Bool := true
   deriving Repr
 
 inductive RxErr where
   | eof | unexpectedEOF | recordOverflow | badVersion | badRecordMAC | unexpectedMessage
   | remoteAlert (code : Nat) | tooManyIgnored | noRenegotiation | internal
+  /- the transport's read deadline has passed (temporary: not latched) -/
+  | timeout
   /- raised only while the handshake is still running (`Model.RecordRxHandshake`) -/
   | decodeError | handshakeTooLong | handshakeFailure
   deriving Repr, DecidableEq
@@ -47,16 +59,67 @@ inductive RxErr where
 structure Raw where
   raw : Bytes
   chunks : List Bytes
+  /-- the transport reports end-of-stream together with its last chunk (`n > 0, err == io.EOF`)
+  instead of by a separate empty `Read` -/
+  eofWithLast : Bool := false
+  /-- the transport's read deadline lies in the past: every `Read` of it fails with a timeout -/
+  expired : Bool := false
   deriving Repr, DecidableEq
 
 /-- everything still to come, in order -/
 def Raw.all (r : Raw) : Bytes := r.raw ++ r.chunks.flatten
 
-/-- `readFromUntil(n)`: `rawInput.ReadFrom(&atLeastReader{r, n - rawInput.Len()})` — whole
-chunks are appended until at least `n` bytes are buffered; `false` = the stream ended first -/
-def fill (n : Nat) (raw : Bytes) : List Bytes → Bytes × List Bytes × Bool
-  | [] => (raw, [], decide (n ≤ raw.length))
-  | c :: cs => if n ≤ raw.length then (raw, c :: cs, true) else fill n (raw ++ c) cs
+/-- what `rawInput.ReadFrom` is told by one `atLeastReader.Read` -/
+inductive ALRes where
+  /-- `(n, nil)`: `ReadFrom` reads again -/
+  | more
+  /-- `(n, io.EOF)`: `ReadFrom` returns nil — `readFromUntil` succeeded -/
+  | done
+  /-- `(n, io.ErrUnexpectedEOF)`: `readFromUntil` fails -/
+  | short
+  deriving Repr, DecidableEq
+
+/-- `atLeastReader.Read` after the transport answered `(got bytes, io.EOF iff eof)` while `need`
+(> 0) bytes were still wanted:
+```
+r.N -= int64(n)
+if r.N > 0 && err == io.EOF { return n, io.ErrUnexpectedEOF }      -- `guard` = the `r.N > 0 &&`
+if r.N <= 0 && err == nil  { return n, io.EOF }
+return n, err
+``` -/
+def atLeast (guard : Bool) (need got : Nat) (eof : Bool) : ALRes :=
+  if eof then
+    -- with the guard: only a stream that ends while bytes are missing is short; else `return n, err`
+    -- hands `io.EOF` through, which ends `ReadFrom` without error: the bytes count
+    if (!guard) || got < need then .short else .done
+  else if need ≤ got then .done else .more
+
+/-- `readFromUntil(n)`: `if rawInput.Len() >= n { return nil }`, else
+`rawInput.ReadFrom(&atLeastReader{r, n - rawInput.Len()})` — whole chunks are appended until at
+least `n` bytes are buffered; `false` = it failed (the stream ended first, or the read deadline
+has passed).  `g` is `Params.eofShortOnlyWhenShort`, `e`/`x` are `Raw.eofWithLast`/`Raw.expired`. -/
+def fill (g e x : Bool) (n : Nat) (raw : Bytes) : List Bytes → Bytes × List Bytes × Bool
+  | [] =>
+    -- the transport answers `(0, io.EOF)` (or a timeout): `r.N > 0` ⇒ failure
+    (raw, [], decide (n ≤ raw.length))
+  | c :: cs =>
+    if n ≤ raw.length then (raw, c :: cs, true)
+    else if x then (raw, c :: cs, false)
+    else
+      match atLeast g (n - raw.length) c.length (e && cs.isEmpty) with
+      | .more => fill g e x n (raw ++ c) cs
+      | .done => (raw ++ c, cs, true)
+      | .short => (raw ++ c, cs, false)
+
+/-- `readFromUntil` on the receive half `r` -/
+def Raw.fill (P : Params) (r : Raw) (n : Nat) : Bytes × List Bytes × Bool :=
+  Gotlcp.Model.RecordRx.fill P.eofShortOnlyWhenShort r.eofWithLast r.expired n r.raw r.chunks
+
+/-- why `readFromUntil` failed with `len` bytes buffered -/
+def Raw.failure (r : Raw) (len : Nat) : RxErr :=
+  if r.expired then .timeout
+  -- `if err == io.ErrUnexpectedEOF && c.rawInput.Len() == 0 { err = io.EOF }`
+  else if len = 0 then .eof else .unexpectedEOF
 
 inductive FrameRes where
   | frame (typ : UInt8) (body : Bytes)
@@ -67,24 +130,25 @@ def be16 (a b : UInt8) : Nat := a.toNat * 256 + b.toNat
 
 /-- the framing part of `readRecordOrCCS`: header, version and length check, body -/
 def nextFrame (P : Params) (r : Raw) : FrameRes × Raw :=
-  let f1 := fill P.recordHeaderLen r.raw r.chunks
+  let f1 := r.fill P P.recordHeaderLen
   if !f1.2.2 then
-    -- `if err == io.ErrUnexpectedEOF && c.rawInput.Len() == 0 { err = io.EOF }`
-    (.err (if f1.1.length = 0 then .eof else .unexpectedEOF), ⟨f1.1, f1.2.1⟩)
+    (.err (r.failure f1.1.length), { r with raw := f1.1, chunks := f1.2.1 })
   else
     let hdr := f1.1
     let typ := hdr.getD 0 0
     let vers := be16 (hdr.getD 1 0) (hdr.getD 2 0)
     let n := be16 (hdr.getD 3 0) (hdr.getD 4 0)
-    if vers ≠ P.version then (.err .badVersion, ⟨f1.1, f1.2.1⟩)
-    else if P.maxCiphertext < n then (.err .recordOverflow, ⟨f1.1, f1.2.1⟩)
+    if vers ≠ P.version then (.err .badVersion, { r with raw := f1.1, chunks := f1.2.1 })
+    else if P.maxCiphertext < n then (.err .recordOverflow, { r with raw := f1.1, chunks := f1.2.1 })
     else
-      let f2 := fill (P.recordHeaderLen + n) f1.1 f1.2.1
-      if !f2.2.2 then (.err .unexpectedEOF, ⟨f2.1, f2.2.1⟩)
+      let r1 : Raw := { r with raw := f1.1, chunks := f1.2.1 }
+      let f2 := r1.fill P (P.recordHeaderLen + n)
+      -- the body: a failure here is never downgraded to end-of-stream
+      if !f2.2.2 then (.err (if r.expired then .timeout else .unexpectedEOF), { r with raw := f2.1, chunks := f2.2.1 })
       else
         -- record := c.rawInput.Next(recordHeaderLen + n)
         (.frame typ ((f2.1.take (P.recordHeaderLen + n)).drop P.recordHeaderLen),
-          ⟨f2.1.drop (P.recordHeaderLen + n), f2.2.1⟩)
+          { r with raw := f2.1.drop (P.recordHeaderLen + n), chunks := f2.2.1 })
 
 abbrev Dec := Nat → UInt8 → Bytes → Option Bytes
 
@@ -147,7 +211,8 @@ def readRecord (P : Params) (dec : Dec) : Nat → Rx → Option RxErr × Rx
       else
         match readOne P dec s with
         | (.ok, s1) => (none, s1)
-        | (.err e, s1) => (some e, { s1 with err := some e })
+        -- `if e, ok := err.(net.Error); !ok || !e.Temporary() { c.in.setErrorLocked(err) }`
+        | (.err e, s1) => (some e, if e = .timeout then s1 else { s1 with err := some e })
         | (.retry, s1) =>
           let s2 := { s1 with retry := s1.retry + 1 }
           if P.maxUselessRecords < s2.retry then (some .tooManyIgnored, { s2 with err := some .tooManyIgnored })
